@@ -33,7 +33,7 @@ fn tile_entries(rng: &mut Rng, n: usize, entropy: bool) -> Vec<REntry> {
 }
 
 /// A valid tile-entry list whose `None` encoding has exactly `target` bytes.
-fn steer(rng: &mut Rng, target: usize) -> Option<Vec<REntry>> {
+pub fn steer(rng: &mut Rng, target: usize) -> Option<Vec<REntry>> {
     let mut v: Vec<REntry> = Vec::new();
     let mut id = rng.below(100);
     let fix_offsets = |v: &mut Vec<REntry>| {
